@@ -1,6 +1,7 @@
 package main
 
 import (
+	"strconv"
 	"fmt"
 	"go/ast"
 	"os"
@@ -25,6 +26,9 @@ func (e *Exec) verifyFunction(fn *ssa.Function, sp *FuncSpec) {
 		args = append(args, v)
 	}
 	bindParams(fn, func(i int, p *ssa.Parameter) (SV, bool) { return args[i], true }, vars)
+	if recvNowPointer[fnName(fn)] && len(args) > 0 && len(args[0].L) == 1 {
+		st.pc = append(st.pc, Not(Eq(args[0].L[0], IntLit(0))))
+	}
 	var binds []SV
 	for _, fv := range fn.FreeVars {
 		v := e.freshSV("fv."+fv.Name(), fv.Type())
@@ -551,6 +555,13 @@ func (o *Obligation) Discharged() bool {
 
 func dischargeAll(obls []*Obligation, timeoutS int) {
 	var wg sync.WaitGroup
+	// circuit breaker: once many obligations of one function have timed out, the rest of that function's
+	// obligations are not attempted (the verdict for the function is "not proved" either way)
+	var tmu sync.Mutex
+	timeouts := map[string]int{}
+	failedByName := map[string]int{}
+	const maxTimeouts = 24
+	gate := make(chan struct{}, 20) // obligations in flight (the breaker is consulted when one is admitted)
 	for _, o := range obls {
 		if o.Goal.S == "true" && !o.Cover {
 			o.Res = SolverResult{Status: "unsat", Solver: "trivial"}
@@ -559,6 +570,8 @@ func dischargeAll(obls []*Obligation, timeoutS int) {
 		wg.Add(1)
 		go func(o *Obligation) {
 			defer wg.Done()
+			gate <- struct{}{}
+			defer func() { <-gate }()
 			t := timeoutS
 			if o.Cover {
 				t = 2 // vacuity guards only need "not provably contradictory"
@@ -578,7 +591,36 @@ func dischargeAll(obls []*Obligation, timeoutS int) {
 					}
 				}
 			}
+			if !o.Cover {
+				// a clause that has already failed on several paths is failed: further instances add nothing
+				tmu.Lock()
+				nf := failedByName[o.Name]
+				tmu.Unlock()
+				if nf >= 4 {
+					o.Res = SolverResult{Status: "unknown", Solver: "skipped", Output: "not attempted: this obligation has already failed on " + strconv.Itoa(nf) + " other paths"}
+					return
+				}
+			}
+			if o.Top != "" {
+				tmu.Lock()
+				n := timeouts[o.Top]
+				tmu.Unlock()
+				if n >= maxTimeouts {
+					o.Res = SolverResult{Status: "timeout", Solver: "skipped", Output: "not attempted: " + strconv.Itoa(n) + " obligations of " + o.Top + " have already timed out"}
+					return
+				}
+			}
 			o.Res = Solve(o.Name, o.Query(true), t, false)
+			if !o.Cover && o.Res.Status != "unsat" {
+				tmu.Lock()
+				failedByName[o.Name]++
+				tmu.Unlock()
+			}
+			if o.Top != "" && (o.Res.Status == "timeout" || o.Res.Status == "unknown" && o.Res.TimeS > float64(t)*0.8) {
+				tmu.Lock()
+				timeouts[o.Top]++
+				tmu.Unlock()
+			}
 		}(o)
 	}
 	wg.Wait()
@@ -586,11 +628,11 @@ func dischargeAll(obls []*Obligation, timeoutS int) {
 	// (many checks side by side): such queries are asked once more, a few at a time, with three times the budget
 	var again []*Obligation
 	for _, o := range obls {
-		if !o.Cover && (o.Res.Status == "timeout" || o.Res.Status == "error") && !strings.Contains(o.Res.Output, "solvers disagree") {
+		if !o.Cover && (o.Res.Status == "timeout" || o.Res.Status == "error") && o.Res.Solver != "skipped" && !strings.Contains(o.Res.Output, "solvers disagree") {
 			again = append(again, o)
 		}
 	}
-	if len(again) > 0 && len(again) <= 200 {
+	if len(again) > 0 && len(again) <= 40 {
 		sem := make(chan struct{}, 4)
 		for _, o := range again {
 			wg.Add(1)
@@ -660,6 +702,19 @@ func aggregate(obls []*Obligation) []*AggOb {
 	var out []*AggOb
 	for _, n := range order {
 		a := m[n]
+		// representative failure: one with a model first, one that was not attempted last
+		rank := func(o *Obligation) int {
+			switch {
+			case o.Res.Solver == "skipped":
+				return 3
+			case o.Res.Status == "sat":
+				return 0
+			case o.Res.Status == "unknown":
+				return 1
+			}
+			return 2
+		}
+		sort.SliceStable(a.Failed, func(i, j int) bool { return rank(a.Failed[i]) < rank(a.Failed[j]) })
 		// cover groups hold if any member is satisfiable
 		if strings.Contains(a.Name, "/cover:") && a.anyCover {
 			a.Failed = nil
